@@ -23,7 +23,7 @@ def _owners():
             _OWN[op] = c10.check
         _OWN['argon2'] = c11.check
         _OWN['argon2b'] = c11.check
-        for op in ('x25519', 'x25519_base', 'x_dh', 'x_base', 'x25519_iter'):
+        for op in ('x25519', 'x25519_base', 'x_dh', 'x_dhc', 'x_base', 'x25519_iter'):
             _OWN[op] = c12.check
         for op in ('ed_keypair', 'ed_sign', 'ed_sign_ext', 'ed_ext_pub', 'ed_exchange'):
             _OWN[op] = c13.check
